@@ -75,6 +75,11 @@ def run_case(case):
             gb = call(GroupBy, keyobj, sort=bool(case["sort"]))
             tr["chunked"] = int(bool(gb.key_is_chunked))
             tr["ngroups"] = int(gb.ngroups)
+            try:       # derived view of the codes: is there a null-key row?  (read before and after the codes are touched below)
+                tr["hasnull"] = int(bool(gb.has_null_keys))
+                tr["nrows"] = int(len(gb))
+            except Exception as ex:
+                tr["hasnull"], tr["nrows"], tr["hasnull_exc"] = -1, -1, f"{type(ex).__name__}: {ex}"[:120]
             n = len(case["keys"])
             labels_idx = gb.result_index
             tr["labels"] = _labels_list(labels_idx, encs)
